@@ -10,6 +10,9 @@
  *               non-default values ("singles"); "<=k deviations" = all vectors differing from the defaults in <=k dims.
  *   --mode grid : every base x every vector with <=k deviations x every signal family x F consecutive frames;
  *                 entry points opus_encode / opus_encode24 / opus_encode_float rotate so every vector meets each of them.
+ *   --mode exc  : like hist, but B is a ONE-frame excursion: A x3 frames, B x1 (--excb) frame, back to A x3 (--excc) frames - a transient
+ *                 in the caller's settings (a pinched buffer, one frame at another rate / duration / mode) leaves encoder and decoders in
+ *                 states that no monotone history reaches (e.g. the encoder remembers a mode the decoders never saw)
  *   --mode hist : every base x every ordered pair (A,B) of <=1-deviation vectors: A for 3 frames, then the settings are
  *                 changed to B (A's dimension back to its default, B's deviation set; with --stack 1 also B on top of A)
  *                 for 4 frames.  The state after the A prefix (encoder + all decoders) is snapshotted by memcpy of
@@ -344,7 +347,7 @@ static int dec_set(decobj *D,long rc,int base){
    return nd;
 }
 
-static int NFRAMES_A=3, NFRAMES_B=4;
+static int NFRAMES_A=3, NFRAMES_B=4, NFRAMES_C=0;   /* NFRAMES_C>0 (mode exc): after B the settings return to A for NFRAMES_C frames */
 
 /* grid: one vector x all signal families */
 static void run_vector(int base,const int *v,long vc){
@@ -429,6 +432,10 @@ static void hist_item(long it,void *ctx){
             if (apply_diff(&e,va,vb)){ MC_INC(c_skipcfg); continue; }
             MC_INC(c_runs);
             for(f=0;f<NFRAMES_B;f++) if (step(&e,vb,fam,e2,&pos,D,nd,base,basename_(base),NFRAMES_A+f)==1) break;
+            if (NFRAMES_C && f==NFRAMES_B){      /* excursion: back to A */
+               mc_case("encode_or_decode","exc base=%d Fs=%d ch=%d app=%s A=[%s] x%d -> B=[%s] x%d -> A x%d signal=%s entry=%s->%s",base,FS[base/6],1+(base/3)%2,APPN[base%3],vec_str(va),NFRAMES_A,vec_str(vb),NFRAMES_B,NFRAMES_C,famname(fam),ENTN[entry],ENTN[e2]);
+               if (apply_diff(&e,vb,va)){ MC_INC(c_skipcfg); continue; }
+               for(f=0;f<NFRAMES_C;f++) if (step(&e,va,fam,entry,&pos,D,nd,base,basename_(base),NFRAMES_A+NFRAMES_B+f)==1) break; }
          }
       }
    }
@@ -647,6 +654,7 @@ int main(int argc,char **argv){
    mc_info("mode=%s k=%d frames=%d ndec=%d alphabet=%s singles=%d families=%d",mode,g_k,g_frames,g_ndec,full?"full":"reduced",NS,NFAMS);
    if (!strcmp(mode,"grid")){ if (g_k>=3) g_split=1; nitems = !g_split ? 30L*(NS+1) : 30L*(NS+1)*(NS+1); mc_par(nitems,grid_item,NULL); }
    else if (!strcmp(mode,"hist")){ mc_par(30L*(NS+1),hist_item,NULL); }
+   else if (!strcmp(mode,"exc")){ NFRAMES_B=(int)mc_arg("--excb",1); NFRAMES_C=(int)mc_arg("--excc",3); mc_par(30L*(NS+1),hist_item,NULL); }
    else if (!strcmp(mode,"ms")){ mc_par(ms_nitems()+(g_sweep>0?(long)g_nlay*15*NSWEEPCFG:0),ms_item,NULL); }
    else if (!strcmp(mode,"sweep")){ mc_par(30L*36,sweep_item,NULL); }
    else if (!strcmp(mode,"fec")){ int nl=MC.tier?3:2, ndur=MC.tier?3:2; mc_par((long)2*nl*ndur*3*2*2*(MC.tier?15:10),fec_item,NULL); }
